@@ -430,3 +430,7 @@ from_str_fields!(ts_from_str_fields_2, "7-8", few);
 from_str_fields!(ts_from_str_fields_3, "7-8-9", few);
 from_str_fields!(ts_from_str_fields_4, "7-8-9-1", full);
 from_str_fields!(ts_from_str_fields_5, "7-8-9-1-2", full);
+
+// native replay of Kani counterexamples (tools/replay.py writes the file)
+#[cfg(verif_replay)]
+include!("/verif/build/timestamp/replay_tests.rs");
